@@ -252,10 +252,10 @@ fn e2e(scn: &Value) -> Value {
                         // let the accept loop observe it
                         tokio::time::sleep(Duration::from_millis(30)).await;
                         // "stops accepting connections": with sessions still in flight (howl cannot have returned) the port must refuse a new
-                        // client -- probed until it does, for at most 4 s (the sessions stay in flight meanwhile: only the script releases them)
+                        // client -- probed until it does, for at most 10 s (the sessions stay in flight meanwhile: only the script releases them)
                         if !inflight.is_empty() {
                             let t0 = std::time::Instant::now(); let mut closed = false; let mut oks = 0i64;
-                            while t0.elapsed() < Duration::from_millis(4000) {
+                            while t0.elapsed() < Duration::from_millis(10000) {
                                 match tokio::time::timeout(Duration::from_millis(1500), tokio::net::TcpStream::connect(("127.0.0.1", port))).await {
                                     Ok(Ok(c)) => { oks += 1; drop(c); tokio::time::sleep(Duration::from_millis(20)).await }
                                     Ok(Err(e)) if e.kind() == std::io::ErrorKind::ConnectionRefused => { closed = true; break }
